@@ -215,7 +215,7 @@ func rpmProto(ts []rpmTuple) string {
 
 func runRpm(r *hx.Run, rnd *hx.Rand, cfg hx.Config) error {
 	tmp := cfg.OutDir
-	n := cfg.N(80, 1000)
+	n := cfg.N(80, 2000)
 	for i := 0; i < n && !r.Stop(); i++ {
 		k := rnd.Intn(9)
 		if i%40 == 7 {
